@@ -238,6 +238,11 @@ func (c *Ctx) RuleValidate() *Result {
 			switch r0 := call.Call.Args[0].(type) {
 			case *ssa.Global:
 				recvOK = true
+			case *ssa.Alloc:
+				// a stack that lives for exactly one run: a local of the function, handed down by address
+				if nt, ok := derefType(r0.Type()).(*types.Named); ok && nt.Obj().Pkg() != nil && nt.Obj().Pkg().Path() == opPkg {
+					recvOK = true
+				}
 			case *ssa.FieldAddr:
 				recvOK = len(fn.Params) > 0 && r0.X == ssa.Value(fn.Params[0])
 			case *ssa.UnOp:
@@ -427,9 +432,61 @@ func (c *Ctx) RuleResolve() *Result {
 		}
 	}
 	if nameField == nil {
+		// resolved by hand-written code instead of the pattern: a parameter (plus the extension) stored into a text
+		// field of a package-level struct by a function that does not match the rule-id pattern at all
+		handWritten := ""
+		for _, fn := range c.P.RepoFns {
+			if load.ShortPkg(load.FnPkgPath(fn)) != "cmd" || !c.liveFn(fn) {
+				continue
+			}
+			usesPattern := false
+			for _, s := range c.submatchSites() {
+				if s.fn == fn && s.pattern != nil && s.pattern.Name == "regex.RuleIdFileNameRegex" {
+					usesPattern = true
+				}
+			}
+			if usesPattern || !c.aliasSet("@rule-id-resolver")[load.FnName(fn)] {
+				continue // only the function that fills the rule-values holder (id, file name, chain offset)
+			}
+			allInstrs(fn, func(in ssa.Instruction) {
+				st, ok := in.(*ssa.Store)
+				if !ok || !isTextType(st.Val.Type()) {
+					return
+				}
+				fa, ok := st.Addr.(*ssa.FieldAddr)
+				if !ok {
+					return
+				}
+				if _, isG := fa.X.(*ssa.Global); !isG {
+					return
+				}
+				for _, op := range stringOperands(st.Val, 0) {
+					v := stripConv(op)
+					if ph, ok := v.(*ssa.Phi); ok {
+						for _, e := range ph.Edges {
+							for _, o2 := range stringOperands(e, 0) {
+								if _, isPar := stripConv(o2).(*ssa.Parameter); isPar {
+									handWritten = load.FnName(fn)
+								}
+							}
+						}
+					}
+					if _, isPar := v.(*ssa.Parameter); isPar {
+						handWritten = load.FnName(fn)
+					}
+				}
+			})
+		}
+		if handWritten != "" {
+			res.Instances++
+			res.undecided("cmd:resolved file name", "-", handWritten+" stores its argument as the resolved file name without matching it against the rule-id pattern: whether the hand-written parse accepts exactly the arguments the pattern accepts (and nothing that names another file) is not decided by this rule")
+			nameField = nil
+		}
+	}
+	if nameField == nil && !res.hasKey("cmd:resolved file name") {
 		res.Instances++
 		res.bad("cmd:resolved file name", "-", "no place stores the matched argument text (group 0 of the rule-id pattern, plus .ra when missing) as the resolved file name: the file that is opened is rebuilt from parsed parts and can differ from the one named (chain0, zero-padded offsets)")
-	} else {
+	} else if nameField != nil {
 		g := nameField.g
 		for _, fn := range c.P.RepoFns {
 			allInstrs(fn, func(in ssa.Instruction) {
